@@ -8,7 +8,7 @@ from pdb2sql import pdb2sql, many2sql
 ID = 'C17'
 LEVEL = 'proof'
 CLUSTER = 'B'
-GEN_UNITS = ['Consts', 'sql_runtime', 'sql_get_nokw', 'sql_get_cond', 'sql_get_query', 'sql_get_rows_step', 'sql_format_get_output', 'get_runtime', 'get_get']
+GEN_UNITS = ['Consts', 'sql_runtime', 'sql_get_nokw', 'sql_get_cond', 'sql_get_query', 'sql_get_rows_step', 'sql_format_get_output', 'get_runtime', 'get_get', 'get_get_table_names']
 RULE = ('Databases of 1-3 structures and of twelve (pdb2sql for one, many2sql for several; 20-4000 atoms per table, formula-generated so that the '
         'Lean side rebuilds the same records). One condition carries a value list of length L in {0,1,2,949,950,951,998,999,1000,'
         '1899,1900,1901,2851} or a random length up to 3000, on rowID / serial / resSeq / name / x, positive or negated, values in '
@@ -366,6 +366,32 @@ def gen_get_checks(ctx):
     return [{'name': f'whole get() on long lists: real code = GENERATED GenG.get ({n} calls: {kinds}; {disc} outside MicroSql)',
              'ok': bad is None and n > 60 and any(':chunked' in k for k in kinds), 'case': bad,
              'detail': 'Gen/Get.lean (py/translate_ext_get.py): validation, dispatch, chunked branch with its recursion, MicroSql as the engine', 'kind': 'gen-get'}]
+def gen_table_names_checks(ctx):
+    """the translated `_get_table_names` (Gen/Get.lean `GenG._get_table_names`: the catalogue query text + the contract clause
+    `E.connExecute`: creation order) against the real method on multi-structure databases, names not in alphabetical order included"""
+    import vlib
+    specs = [[('atom', 5, 0)],
+             [('ATOM', 4, 0), ('ATOM1', 5, 7)],
+             [('ATOM', 6, 1), ('ATOM1', 3, 11), ('ATOM2', 4, 5)],
+             [('s2', 4, 2), ('s1', 3, 9)],
+             [('zeta', 3, 1), ('Mol_B', 2, 3), ('alpha', 4, 5)],
+             [('t9', 2, 1), ('t10', 2, 2), ('T1', 3, 3), ('a', 2, 4)]]
+    lines, reals = [], []
+    for spec in specs:
+        db = obj_of(spec)
+        reals.append(call(lambda: list(db._get_table_names())))
+        lines.append({'op': 'g_table_names', 'db': dbj_of(spec)})
+    ans = vlib.run_driver(lines, which='model', cluster=CLUSTER)
+    bad, n, unordered = None, 0, 0
+    for spec, real, a in zip(specs, reals, ans):
+        m = a.get('model')
+        n += 1
+        unordered += isinstance(real, list) and real != sorted(real)
+        if m != real and bad is None:
+            bad = {'tables as created': [nm for nm, _, _ in spec], 'real _get_table_names()': short(real), 'translated': short(m)}
+    return [{'name': f'_get_table_names(): real code = GENERATED GenG._get_table_names ({n} databases, {unordered} with names not in alphabetical order)',
+             'ok': bad is None and unordered >= 2, 'case': bad,
+             'detail': 'Gen/Get.lean unit get_get_table_names + the catalogue clause E.connExecute (creation order)', 'kind': 'gen-get'}]
 # ---- getTie: end -------------------------------------------------------------------------------------------------------
 
 
@@ -476,7 +502,7 @@ def per_structure_checks(ctx):
 
 
 def extra_checks(ctx):
-    return sql_text_checks(ctx) + gen_get_checks(ctx) + per_structure_checks(ctx)
+    return sql_text_checks(ctx) + gen_get_checks(ctx) + gen_table_names_checks(ctx) + per_structure_checks(ctx)
 
 
 def search_cases(ctx):
